@@ -458,4 +458,28 @@ var SchemaShapes = []func(s *SB){
 		s.def(func() { s.ns("extend", "type", "B"); s.braces(func() { s.field("f", "Int") }) })
 		s.def(func() { s.ns("type", "Query"); s.braces(func() { s.field("a", "A") }) })
 	},
+	// 8: extension-only types referring to other extension-only types whose extension comes later
+	// (a union and an implementing object that have no definition of their own)
+	func(s *SB) {
+		s.def(func() {
+			s.ns("extend", "union", "V")
+			s.p(hparse.KEquals)
+			s.pick("B", "A", "X", "Missing")
+		})
+		s.def(func() { s.ns("extend", "type", "B"); s.braces(func() { s.field("f", "Int") }) })
+		s.def(func() {
+			s.ns("extend", "type", "C", "implements")
+			s.pick("X", "I", "B", "Missing")
+			s.braces(func() { s.field("f", "Int") })
+		})
+		s.def(func() {
+			s.n("extend")
+			s.pick("interface", "type")
+			s.n("X")
+			s.braces(func() { s.field("f", "Int") })
+		})
+		s.def(func() { s.ns("type", "A"); s.braces(func() { s.field("f", "Int") }) })
+		s.def(func() { s.ns("interface", "I"); s.braces(func() { s.field("f", "Int") }) })
+		s.def(func() { s.ns("type", "Query"); s.braces(func() { s.field("a", "A"); s.field("v", "V") }) })
+	},
 }
